@@ -592,8 +592,8 @@ pub fn big_state_point(rep: &Report, name: &str, fen: &str, stages: &[u64], only
                         rep.violation(
                             format!("C07 big-state fen={} stage={} which={} budget={} work", fen, si, wi, n),
                             format!(
-                                "{} ({:?}), searcher that has thought for {} nodes (table of {} entries): a search of {} with its deadline at node {} visited {} nodes and consumed {} us of CPU (bound: {} us per visited node + {} ms): work that grows with what earlier searches left behind is done without looking at the clock; a fresh searcher answers the same go in microseconds",
-                                name, fen, stage_text, len_before, if wi == 0 { "the same position" } else { "the position two plies on" }, n, visited, cpu_us, WORK_PER_NODE_US, WORK_BASE_MS
+                                "{} ({:?}), searcher that has thought for {} nodes (table of {} entries): a search of {} with its deadline at node {} visited {} nodes and consumed more CPU time than {} us per visited node + {} ms (measured three times from the start): work that grows with what earlier searches left behind is done without looking at the clock; a fresh searcher answers the same go in microseconds",
+                                name, fen, stage_text, len_before, if wi == 0 { "the same position" } else { "the position two plies on" }, n, visited, WORK_PER_NODE_US, WORK_BASE_MS
                             ),
                             args.clone(),
                             J::obj().set("cpu_us", cpu_us).set("nodes_visited", visited).set("table_entries", len_before),
@@ -611,7 +611,11 @@ pub fn replay_big(fen: &str, stages: &str, stage: usize, which: usize, budget: u
     let rep = Report::new("C07", "quick", 0);
     let st: Vec<u64> = stages.split(',').filter_map(|x| x.parse().ok()).collect();
     big_state_point(&rep, "replay", fen, &st, Some((stage, which, budget)));
-    let v = rep.violations.lock().unwrap();
+    // only the case asked for (the short searches before it are part of its history and are run
+    // again, but a borderline measurement among them is not this replay's business)
+    let want = format!("stage={} which={} budget={} ", stage, which, budget);
+    let all = rep.violations.lock().unwrap();
+    let v: Vec<_> = all.iter().filter(|x| x.sig.contains(&want) || x.sig.contains("panic")).collect();
     for x in v.iter() {
         println!("REPLAY-VIOLATION {} :: {}", x.sig, x.text);
     }
